@@ -152,24 +152,31 @@ end Cnfgen.Fam
 namespace Cnfgen.Fam
 open Cnfgen
 
-/-- the assignment under which pigeon `i` spells the number `i - 1` -/
-def binAssign (k : Nat) : Assign := fun x => Nat.testBit ((x - 1) / k) (k - 1 - (x - 1) % k)
+/-- the assignment under which pigeon `i` spells the number `g i` -/
+def binAssignOf (k : Nat) (g : Nat → Nat) : Assign :=
+  fun x => Nat.testBit (g ((x - 1) / k + 1)) (k - 1 - (x - 1) % k)
 
-theorem binAssign_binId {k i b : Nat} (hi : 1 ≤ i) (hb : b < k) :
-    binAssign k (Vars.binId 1 k i b) = (i - 1).testBit b := by
+theorem binAssignOf_binId {k i b : Nat} (g : Nat → Nat) (hi : 1 ≤ i) (hb : b < k) :
+    binAssignOf k g (Vars.binId 1 k i b) = (g i).testBit b := by
   obtain ⟨i', rfl⟩ : ∃ i', i = i' + 1 := ⟨i - 1, by omega⟩
   have hx : Vars.binId 1 k (i' + 1) b - 1 = (k - 1 - b) + i' * k := by
     simp only [Vars.binId, Nat.add_mul, Nat.one_mul]; omega
   have hk : 0 < k := by omega
-  simp only [binAssign, hx, Nat.add_mul_div_right _ _ hk, Nat.add_mul_mod_self_right,
+  simp only [binAssignOf, hx, Nat.add_mul_div_right _ _ hk, Nat.add_mul_mod_self_right,
     Nat.div_eq_of_lt (show k - 1 - b < k by omega), Nat.mod_eq_of_lt (show k - 1 - b < k by omega),
-    Nat.zero_add, Nat.add_sub_cancel]
+    Nat.zero_add]
   congr 1; omega
 
-theorem bval_binAssign {k i : Nat} (hi : 1 ≤ i) (hlt : i - 1 < 2 ^ k) :
-    bval (binAssign k) 1 k i = i - 1 := by
-  have : (fun b : Fin k => binAssign k (Vars.binId 1 k i b)) = fun b : Fin k => (i - 1).testBit b := by
-    funext b; exact binAssign_binId hi b.isLt
+theorem bval_binAssignOf {k i : Nat} (g : Nat → Nat) (hi : 1 ≤ i) (hlt : g i < 2 ^ k) :
+    bval (binAssignOf k g) 1 k i = g i := by
+  have : (fun b : Fin k => binAssignOf k g (Vars.binId 1 k i b)) = fun b : Fin k => (g i).testBit b := by
+    funext b; exact binAssignOf_binId g hi b.isLt
   simp only [bval, this, Nat.ofBits_testBit, Nat.mod_eq_of_lt hlt]
+
+/-- the spelled number determines the bits -/
+theorem bval_inj (α β : Assign) (start bits i : Nat) (h : bval α start bits i = bval β start bits i)
+    (b : Nat) (hb : b < bits) : α (Vars.binId start bits i b) = β (Vars.binId start bits i b) := by
+  have := congrArg (fun x => Nat.testBit x b) h
+  simpa only [bval, Nat.testBit_ofBits_lt _ b hb] using this
 
 end Cnfgen.Fam
